@@ -149,6 +149,25 @@ theorem dm_image_path_eq_matrix_path {α : Type} (mw mh : Nat) (m : Nat → Nat 
       simp only [dmRead, hnf]
     · left; exact ok_of bm hbm hex
 
+/-- … and the condition is exact: below 40 pixels on an axis and with NO white pixel among the sampled ones the image is
+    refused — the binariser's NotFound wrapped as ReaderException — whatever the symbol -/
+theorem dm_image_path_refused {α : Type} (mw mh : Nat) (m : Nat → Nat → Bool) (reqW reqH : Int)
+    (hw : 1 ≤ mw) (hh : 1 ≤ mh) (decode : Bits → Res α) :
+    ∀ img, renderDM mw mh m reqW reqH = .ok img → (img.w < 40 ∨ img.h < 40) → ¬ WhiteSample img →
+      dmImagePath mw mh m reqW reqH decode = .error (.reader .notFound) := by
+  intro img himg hsmall hno
+  obtain ⟨img', himg', ew, eh, _⟩ := renderDM_shows mw mh m reqW reqH hw hh
+  rw [himg] at himg'; cases himg'
+  obtain ⟨hs1, f1, f2, -⟩ := renderDM_quiet mw mh reqW reqH hw hh
+  have e1 : (1 : Int) * (mw : Int) ≤ dmScale mw mh reqW reqH * (mw : Int) :=
+    Int.mul_le_mul_of_nonneg_right hs1 (by omega)
+  have e2 : (1 : Int) * (mh : Int) ≤ dmScale mw mh reqW reqH * (mh : Int) :=
+    Int.mul_le_mul_of_nonneg_right hs1 (by omega)
+  have hnf := blackMatrix_no_white img (by rw [ew]; omega) (by rw [eh]; omega) hsmall hno
+  unfold dmImagePath
+  rw [himg]
+  simp only [dmRead, hnf]
+
 /-! ## 2. the composed image round trip -/
 
 /-- module (column `i`, row `j`) of the symbol (C08 framing and placement) that carries the full codeword sequence
